@@ -2145,6 +2145,16 @@ Queue<ItemType>::Normalize()
          // so we'll rotate the entire array using this
          // algorithm that was written by Paul Hsieh, taken
          // from http://www.azillionmonkeys.com/qed/case8.html
+
+         // The rotation reads and writes every slot of the array, including the unused ones (which, since we are
+         // wrapped, are the ones between the tail and the head).  For trivial item types those slots may never have
+         // been written to, so give them a defined value first rather than copying indeterminate values around.
+         if (IsPerItemClearNecessary() == false)
+         {
+            const ItemType & defaultItem = GetDefaultItem();
+            for (uint32 i=_tailIndex+1; i<_headIndex; i++) _queue[i] = defaultItem;
+         }
+
          uint32 c = 0;
          for (uint32 v = 0; c<_queueSize; v++)
          {
